@@ -14,6 +14,7 @@ META = {
         "R5 ReconKey equality/hash are wired to the Recon comparator/hasher and its bytes are validated UTF-8; R6 take/drop order keys by "
         "Recon order for unordered backings and map Drop->first n, Take->all but first n; R7 map mutating handlers report Modification::of; "
         "R8 a map uplink re-queues itself while it has data. R11 the map lane's queues are drained: pop answers None only when nothing is queued."
+        ' R14 (= C03.R4) after a finished sync queue is removed the cursor stays inside the vector: every sync queue keeps being served.'
 ),
     "does_not_decide": "convergence itself under all interleavings; that K: Ord of an ordered backing agrees with Recon order (documented obligation on the user type); C15's comparator law",
 }
